@@ -70,3 +70,12 @@ func deltaKey(top string, d canon.Delta) string {
 }
 
 var _ = universe.Structs
+
+// universeType returns the struct type behind a pointer (or the type itself).
+func universeType(v any) reflect.Type {
+	t := reflect.TypeOf(v)
+	if t != nil && t.Kind() == reflect.Pointer {
+		return t.Elem()
+	}
+	return t
+}
